@@ -137,14 +137,14 @@ class Rate1Data(BitsInterface):
         if data_type in (Rate1DataTypes.Undefined, Rate1DataTypes.Unconfirmed):
             return Rate1Data(data=bits, packet_type=data_type)
         elif data_type == Rate1DataTypes.Confirmed:
-            return Rate1Data(
+            block: Rate1Data = Rate1Data(
                 dbsn=bits[0:7],
                 crc9=bits[7:16],
                 data=bits[16:192],
                 packet_type=data_type,
             )
         elif data_type == Rate1DataTypes.ConfirmedLastBlock:
-            return Rate1Data(
+            block: Rate1Data = Rate1Data(
                 dbsn=bits[0:7],
                 crc9=bits[7:16],
                 data=bits[16:160],
@@ -155,6 +155,10 @@ class Rate1Data(BitsInterface):
             return Rate1Data(
                 data=bits[0:160], crc32=bits[160:192], packet_type=data_type
             )
+
+        # crc9 value 0 is (re)generated by the constructor, received crc9 of confirmed block must be judged as received
+        block.crc9_ok = ba2int(bits[7:16][::-1]) == block.calculate_crc9()
+        return block
 
     def convert(self, new_type: Rate1DataTypes):
         return Rate1Data.from_bits_typed(bits=self.as_bits(), data_type=new_type)
